@@ -412,13 +412,21 @@ func (g *Gen) constArray(sort, elem string) string {
 		return fmtf("((as const %s) %s)", sort, elem)
 	}
 	key := "zarr:" + sort + ":" + elem
-	if n, ok := g.strLits[key]; ok {
-		return n
+	if g.usedAxioms[key] {
+		return sym("zarr!" + fmtf("%x", hashStr(key)))
 	}
-	n := g.declare(sym(fmtf("zarr!%d", len(g.strLits))), sort)
-	g.strLits[key] = n
+	g.usedAxioms[key] = true
+	n := g.declare(sym("zarr!"+fmtf("%x", hashStr(key))), sort)
 	g.global(fmtf("(forall ((i Int)) (! (= (select %s i) %s) :pattern ((select %s i))))", n, elem, n))
 	return n
+}
+
+func hashStr(s string) uint32 {
+	var h uint32 = 2166136261
+	for i := 0; i < len(s); i++ {
+		h = (h ^ uint32(s[i])) * 16777619
+	}
+	return h
 }
 
 func (g *Gen) strLit(s string) string {
